@@ -143,6 +143,8 @@ type vpWorld struct {
 
 	multiIPKeys map[string]bool // keys of pods that were bound with two or more IPs
 	allowRestart bool           // scenario option: housekeeping may restart galaxy-ipam
+	partialUnassign bool        // resync or the release API sent an UnAssignIP (for one IP of a key) at some point of this history
+	curOp        string         // which activity is running: "event" (unbind of a pod event), "resync", "api" (release API)
 	reserveStale bool           // C03: an unbind decided on a deployment the informer cache had not caught up with (known finding)
 
 	lateEventActive bool // an event of an earlier incarnation is being handled while a same-named live pod with another UID exists
@@ -477,6 +479,9 @@ func (p *vpProvider) UnAssignIP(in *rpc.UnAssignIPRequest) (*rpc.UnAssignIPReply
 		verifKnown("kf-late-event-other-uid", p.w.lateEventActive)
 		verifAssert("C04/unassign-live?", false, "the cloud provider was asked to unassign the IP of a live bound pod")
 	}
+	if p.w.curOp == "resync" || p.w.curOp == "api" {
+		p.w.partialUnassign = true
+	}
 	if cur, has := p.assigned[in.IPAddress]; has && cur != in.NodeName {
 		// the provider detaches the address from the node it is asked about; an address attached to another node stays
 		// where it is (idempotent answer for a node that does not hold it)
@@ -532,7 +537,9 @@ func vpNewWorld(topo int, withProvider bool) *vpWorld {
 			}
 			node, held := w.provider.assigned[old.Name]
 			// known finding: a key holding several IPs is unassigned one IP at a time but released / reserved as a whole
-			verifKnown("kf-C10-multi-ip-partial-unassign", w.multiIPKeys[old.Spec.Key])
+			// known finding: resync / the release API unassign one IP of a multi-IP key and then clear the node of, or free,
+			// every IP of the key; what a later event does to the siblings (unassign with an empty node name, free) follows from it
+			verifKnown("kf-C10-multi-ip-partial-unassign", w.multiIPKeys[old.Spec.Key] && (w.curOp == "resync" || w.curOp == "api" || w.partialUnassign))
 			if kind == "delete" {
 				verifAssert("C10/freed-while-assigned?", !held, "a FloatingIP was freed while the provider still has it assigned to "+node)
 			} else if new != nil && new.Spec.Key != old.Spec.Key {
@@ -739,14 +746,20 @@ func (w *vpWorld) handleEvent(i int) error {
 	if w.lateEventActive {
 		w.lateEventSeen = true
 	}
+	prev := w.curOp
+	w.curOp = "event"
 	err := w.plugin.unbind(ev)
+	w.curOp = prev
 	w.lateEventActive = false
 	return err
 }
 
 func (w *vpWorld) resync() {
+	prev := w.curOp
+	w.curOp = "resync"
 	_ = w.plugin.resyncPod()
 	w.plugin.syncPodIPsIntoDB()
+	w.curOp = prev
 }
 
 // apiRelease is what POST /v1/ip does for one listed entry: the real plugin.Release.
@@ -754,7 +767,11 @@ func (w *vpWorld) apiRelease(ip string) error {
 	for _, e := range w.dump() {
 		if e.IP == ip && e.Allocated {
 			k := util.ParseKey(e.Key)
-			return w.plugin.Release(&ReleaseRequest{KeyObj: k, IP: net.ParseIP(ip)})
+			prev := w.curOp
+			w.curOp = "api"
+			err := w.plugin.Release(&ReleaseRequest{KeyObj: k, IP: net.ParseIP(ip)})
+			w.curOp = prev
+			return err
 		}
 	}
 	return nil
